@@ -143,7 +143,7 @@ def coq_replay_eval(fmt, i, f, e, cfg, mode):
             bs = bytes.fromhex(s[1:])
         else:
             bs = s.encode()
-        return '[' + '; '.join(str(b) for b in bs) + ']'
+        return '([' + '; '.join(str(b) for b in bs) + '] : list Z)'
     if len(i) + len(f) > 3000 or abs(e) > 5000:
         return {'skipped': 'input too large for in-Coq evaluation'}
     F = 'F64' if fmt == 'f64' else 'F32'
